@@ -2,16 +2,16 @@
   families `sock-mon` / `sockj-mon`: the C05 prefix monitor (`Qfx.Link.monLink`, the predicate `C05_safety` is about) and
   the C09 clauses evaluated on what ONE round of two real engines behind real sockets produced.
   Input: `round k=v… ev=… => obs try= settled= subA= subB= dlvA= dlvB= mid= refused= lonA= loutA= lonB= loutB= pairA= pairB=
-          panics= junk= serveJ= stopped=`   |   `=> crashed <class>`   |   `=> stalled`   |   `=> panic`
+          panics= junk= serveJ= stopped= pdcuts= hung=`  (id lists: `a1,a2,a5..a3000`)   |   `=> crashed <class>`   |   `=> stalled`   |   `=> panic`
   Output `ok` or `bad <clause>; …`:
     C05.delivery_not_prefix{to=,kind=}            what a side's application received is not a prefix of what the other side
                                                   submitted (final lists; kind=sampled: at the moment of some delivery)
     C05.not_all_delivered_after_settle{to=}       the link was up and quiet for three heartbeat intervals, something is missing
-    C05.sock_not_settled{why=}                    the bounded wait ran out (link never stayed up / Stop did not return /
+    C05.sock_not_settled{why=}                    the bounded wait ran out (link never stayed up / Stop or SendToTarget did not return /
                                                   the worker did not answer), after the harness repeated the round
     C05.sock_logon_unpaired{side=,kind=}          an OnLogon without its OnLogout by the end, or two OnLogon in a row
     C09.panic{op=sock,kind=recovered|crashed-…}   a panic in a connection handler (recovered, logged) / the process died
-    C09.hang{op=sock}                             the worker did not answer at all
+    C09.hang{op=sock|sock-stop|sock-send}         the worker did not answer at all / Stop / SendToTarget did not return
     C09.sock_not_serving{who=real|J}              after hostile connections the acceptor did not get the real counterparty
                                                   logged on with everything delivered / did not answer session J's Logon
                                                   and TestRequest on a new connection
@@ -26,10 +26,10 @@ open Qfx.Link
 def sockMonObs (hasJunk : Bool) (kv : List (String × String)) : String :=
   match kv.lookup "settled", kv.lookup "subA", kv.lookup "subB", kv.lookup "dlvA", kv.lookup "dlvB" with
   | some settled, some sa, some sb, some da, some db =>
-    let sa := parseCsvStr sa
-    let sb := parseCsvStr sb
-    let da := parseCsvStr da
-    let db := parseCsvStr db
+    let sa := sockIds sa
+    let sb := sockIds sb
+    let da := sockIds da
+    let db := sockIds db
     let st := settled == "y"
     let get (k : String) : String := (kv.lookup k).getD "?"
     let link := monLink st sa sb da db
@@ -39,6 +39,7 @@ def sockMonObs (hasJunk : Bool) (kv : List (String × String)) : String :=
     let unsettled :=
       (if st then [] else ["C05.sock_not_settled{why=link}"])
       ++ (if get "stopped" == "y" then [] else ["C05.sock_not_settled{why=stop}"])
+      ++ (if (kv.lookup "hung").getD "0" == "0" then [] else ["C05.sock_not_settled{why=send}"])
     let pair (side : String) : List String :=
       let v := get ("pair" ++ side)
       if v == "ok" || get "stopped" != "y" then [] else ["C05.sock_logon_unpaired{side=" ++ side ++ ",kind=" ++ v ++ "}"]
@@ -47,6 +48,7 @@ def sockMonObs (hasJunk : Bool) (kv : List (String × String)) : String :=
       (if hasJunk && !(st && allDelivered) then ["C09.sock_not_serving{who=real}"] else [])
       ++ (if get "serveJ" == "n" then ["C09.sock_not_serving{who=J}"] else [])
       ++ (if get "stopped" == "y" then [] else ["C09.hang{op=sock-stop}"])
+      ++ (if (kv.lookup "hung").getD "0" == "0" then [] else ["C09.hang{op=sock-send}"])
     verdict (link ++ sampled ++ unsettled ++ pair "A" ++ pair "B" ++ panics ++ serving)
   | _, _, _, _, _ => "bad unparsed_observation"
 
